@@ -18,4 +18,34 @@ PROPS = {
         "trusted_base": ["id_arena (append-only arena) and std HashMap/HashSet are modelled, not verified"],
         "assumptions": ["identifiers used in a history were handed out by the same collection (ids cannot be forged through the public API)"],
     },
+    "C12": {
+        "lean_modules": ["Walrus.Props.C12"],
+        "suites": [{"name": "sections"}],
+        "rule": "generated valid modules (random feature mix) with custom sections sprinkled at every section boundary "
+                "(duplicate names, empty names/payloads, names close to the interpreted ones: 'names', 'producer', '.debug'), "
+                "with/without name, producers and junk .debug sections, x 8 switch settings x scripts over {emit, gc} "
+                "(e, ee, ege, ge, eee, egege, gee); 1 in 7 inputs corrupted. Non-trivial: the input has at least one custom section; distinct by request",
+        "strength": "full in the model (customs_survive: every script of emits and GC runs); tie: exact prediction of the custom-section list of every emit",
+        "trusted_base": ["wasmparser section framing (decoder of the harness), wasm-encoder custom-section framing"],
+        "assumptions": ["custom sections added by user code with a name walrus interprets are out of scope (the property is about parsed modules)"],
+    },
+    "C14": {
+        "lean_modules": ["Walrus.Props.C14"],
+        "suites": [{"name": "sections"}],
+        "rule": "as C12; each case additionally re-run with the name switch and the producers switch flipped (byte comparison of all other sections), "
+                "round-tripped 3 more times for the producers clause, and its parse callback counted. Non-trivial: input has >=1 custom section",
+        "strength": "full in the model for name/producers/DWARF presence, producers content and callback count; 'nothing else changes' for standard sections is decided by the byte-level oracle; DWARF presence is modelled as a flag (gimli abstracted)",
+        "trusted_base": ["gimli (DWARF re-serialisation) abstracted to presence", "wasmparser/wasm-encoder framing"],
+        "assumptions": ["producers_once assumes a well-formed input producers section (unique field names, unique value names per field), as the tool-conventions require"],
+    },
+    "C08": {
+        "lean_modules": ["Walrus.Props.C08"],
+        "suites": [{"name": "sections"}],
+        "rule": "as C12; oracle: emits on one Module byte-identical, a second parse of the same bytes emits identical bytes (fresh hash seeds), "
+                "re-parsing the output and emitting reproduces it byte for byte. Non-trivial: input has >=1 custom section",
+        "strength": "emit_pure / emit_repeatable / roundtrip_fixpoint proved for the custom-section, producers, name- and DWARF-presence slice of the module; "
+                    "byte-level determinism of the standard sections and cross-process hashing are decided by the oracle only (see DESIGN.md)",
+        "trusted_base": ["std HashMap iteration order is never relied on without a following sort: audited by the oracle, not proved"],
+        "assumptions": [],
+    },
 }
